@@ -220,6 +220,7 @@ func suiteShimLife(e *vh.Env) {
 	}
 	shimPushOnlyClose(e, n)
 	shimOverlappingOpens(e, n+100)
+	shimBackendClosesWithUnpolled(e, n+200)
 }
 
 // shimPushOnlyClose: a backend that only ever writes (it never reads, so it never answers a close frame).
@@ -281,6 +282,50 @@ func shimPushOnlyClose(e *vh.Env, base int) {
 		srv.Close()
 		e.Eval(fmt.Sprintf("push-only-%d", k), true)
 		e.Count("push-only-backend-close")
+	}
+}
+
+// shimBackendClosesWithUnpolled: the backend sends k messages that nobody polls (k up to the shim's buffering: ten
+// queued and one in the reader's hand) and closes; the client first notices through failing data calls and polls
+// only then.  The polls must still deliver the k messages the agent had received, then report the session closed.
+func shimBackendClosesWithUnpolled(e *vh.Env, base int) {
+	for idx, k := range []int{3, 10, 11, 11} {
+		if !e.Want(base+idx) || (idx == 3 && !e.Thorough()) {
+			continue
+		}
+		s := openShim(e, base+idx)
+		if s == nil {
+			continue
+		}
+		for j := 0; j < k; j++ {
+			s.bc.WriteMessage(websocket.TextMessage, []byte(fmt.Sprintf("unpolled-%d", j)))
+		}
+		time.Sleep(150 * time.Millisecond) // the agent has read them all
+		s.bc.WriteControl(websocket.CloseMessage, websocket.FormatCloseMessage(websocket.CloseNormalClosure, ""), time.Now().Add(time.Second))
+		s.bc.Close()
+		time.Sleep(50 * time.Millisecond)
+		dataCalls := 0
+		for ; dataCalls < 40; dataCalls++ {
+			if c := s.data(1); c != 200 {
+				break
+			}
+			time.Sleep(10 * time.Millisecond)
+		}
+		delivered, last := 0, 0
+		for tries := 0; tries < 20; tries++ {
+			c, n := s.poll()
+			last = c
+			if c != 200 {
+				break
+			}
+			delivered += n
+		}
+		if delivered != k || last != 400 {
+			e.Fail("C12:received-messages-not-delivered", fmt.Sprintf("the backend sent %d messages, none polled, and closed; after %d data calls (the last one refused) the client's polls delivered %d messages and ended with status %d", k, dataCalls+1, delivered, last), base+idx, nil, delivered, k)
+		}
+		s.shut()
+		e.Eval(fmt.Sprintf("unpolled-%d", k), true)
+		e.Count(fmt.Sprintf("backend-closes-with-%d-unpolled", k))
 	}
 }
 
